@@ -25,7 +25,7 @@ func TestC04(t *testing.T) {
 	runProp(t, &propSpec{
 		id: "C04",
 		profile: &Profile{
-			Name: "C04", MinSteps: 8, MaxSteps: 40, MaxClient: 4, OddSometimes: true, Streams: true, V6: true, Fragments: []string{"perm", "chan", "alloc"},
+			Name: "C04", MinSteps: 8, MaxSteps: 40, MaxClient: 4, OddSometimes: true, Streams: true, V6: true, RealGen: true, Fragments: []string{"perm", "chan", "alloc"},
 			Weights: map[string]int{"Allocate": 10, "Refresh": 8, "CreatePermission": 12, "ChannelBind": 12, "Send": 12, "ChannelData": 12, "PeerData": 14, "Sleep": 6, "Binding": 2, "RelayError": 1, "CloseControl": 1},
 		},
 		nontrivial: func(st *Stats, sc *Script) bool {
@@ -240,8 +240,8 @@ func TestC09(t *testing.T) {
 func relationalC04(t *testing.T, r *vkit.Run, sc *Script, res caseResult) (string, string) {
 	t.Helper()
 	n := len(sc.Cfg.Clients)
-	if n < 2 || sc.Cfg.Quota > 0 || sc.Cfg.GenFailAt > 0 || sc.Cfg.CallbackSleepS > 0 {
-		return "", "" // a per-user quota, a scripted generator failure and slow callbacks couple clients by design
+	if n < 2 || sc.Cfg.Quota > 0 || sc.Cfg.GenFailAt > 0 || sc.Cfg.CallbackSleepS > 0 || sc.Cfg.RealGenPorts > 0 {
+		return "", "" // a per-user quota, a scripted generator failure, slow callbacks and a range of a few relay ports couple clients by design
 	}
 	for _, st := range sc.Steps {
 		if st.Opt != "" || st.TxFrom > 0 {
